@@ -329,6 +329,38 @@ def main():
                 broken.append({"kind": "correspondence", "name": "%s/%s case %d (%d mismatching cases in all)" % (pid, m0["family"], m0["index"], len(mismatches)),
                                "detail": json.dumps(m0["case"])[:1500]})
 
+    # 2b. something no longer checks but no direct oracle failed: enlarge the search for a
+    # concrete failing input (deeper tier, other seeds) for a bounded time
+    search_note = None
+    if broken and result is not None and not (result.get("oracle_failures") or []) and harness_ok and not a.replay \
+            and not os.environ.get("VERIF_NO_SEARCH"):
+        budget = time.time() + int(os.environ.get("VERIF_SEARCH_S", "240"))
+        tried = []
+        for k, (t2, s2) in enumerate([("thorough", seed + 1), ("thorough", seed + 2), ("quick", seed + 3)]):
+            left = budget - time.time()
+            if left < 20:
+                break
+            sdir = rundir + "-search%d" % k
+            shutil.rmtree(sdir, ignore_errors=True)
+            os.makedirs(sdir)
+            rc2, out2 = sh([binp, "-seed", str(s2), "-tier", t2, "-out", sdir], cwd=HARNESS, env=goenv(), timeout=left)
+            tried.append("%s/seed=%d" % (t2, s2))
+            rp2 = os.path.join(sdir, "result.json")
+            found = []
+            if os.path.exists(rp2):
+                try:
+                    found = json.load(open(rp2)).get("oracle_failures") or []
+                except Exception:
+                    found = []
+            shutil.rmtree(sdir, ignore_errors=True)
+            if found:
+                result["oracle_failures"] = found
+                search_note = "failing input found by the enlarged search (%s)" % tried[-1]
+                break
+        if search_note is None:
+            search_note = "enlarged search found no failing input (%s)" % ", ".join(tried)
+        notes.append(search_note)
+
     # 3. verdict
     known = load_known()
     violations = []   # (signature, desc, replay)
